@@ -314,6 +314,13 @@ theorem twin_len {a b : World} (ha : Inv a) (hb : Inv b) (t : Twin a b) : a.len 
   have := t.map id
   cases hx : a.entity id <;> cases hy : b.entity id <;> simp [hx, hy, entEqv] at this ⊢
 
+theorem entEqv_symm' (x y : Option (List Val)) : entEqv x y = entEqv y x := by
+  cases x <;> cases y <;> simp [entEqv, rowEqv_symm]
+
+/-- The lock-step relation is symmetric. -/
+theorem Twin.symm {a b : World} (t : Twin a b) : Twin b a :=
+  ⟨t.n.symm, t.abs.symm, fun id => by rw [entEqv_symm']; exact t.map id⟩
+
 /-! ### twins answer every query alike -/
 
 theorem maskOf_eqv (n : Nat) {x y : List Val} (h : rowEqv x y = true) : Spec.maskOf n x = Spec.maskOf n y := by
